@@ -170,10 +170,10 @@ CLAIMED = {
               'sort keys; substr = Python slice laws; maxwidth = `textwrap.shorten` modelled chunk by chunk: the result never '
               'exceeds the width (`C18_maxwidth_bound`, every text), a text that fits is returned with its white space '
               'normalised and nothing else (`C18_maxwidth_fits`), every result is a prefix of the normalised chunks, possibly followed by the '
-              'placeholder, or the bare placeholder (`C18_maxwidth_shape`), widths below 5 are errors; abs/neg/safediv/round (exponent, exactness, half-even error bound); casts '
+              'placeholder, or the bare placeholder (`C18_maxwidth_shape`), widths below 5 are errors; subst with a literal pattern leaves a text without the pattern alone and, for a one-character pattern, replaces exactly that character everywhere (`C18_subst_absent`, `C18_subst_char`); abs/neg/safediv/round (exponent, exactness, half-even error bound); casts '
               'are total (value or NULL). Tied to the code by EXHAUSTIVE correspondence over the property\'s domains: every date '
               '1900-2100 x every unit/part, strides x origins, 605 account names, 341 strings x all index pairs in [-6,6], the same strings '
-              'and longer texts x every width in [-1,14] for maxwidth, all '
+              'and longer texts x every width in [-1,14] for maxwidth, subst / grepn over every string of length <= 5 over {a, b, :} x 8 patterns x 5 replacements, every cast and numeric function down a column of equal-but-distinct values, all '
               'decimals of <= 3 digits, cast lexicon.'),
         design='DESIGN.md §5 C18',
         note=NOTE_COMMON + 'regex beyond literal patterns and dateutil (parse_date) are not modelled; maxwidth (textwrap.shorten) is modelled for texts without hyphens.',
